@@ -89,9 +89,15 @@ func c29R1(c *an.Check, setV, safe *ssa.Function) {
 			}
 			nMut++
 			top := an.EnclosingTop(fn)
-			c.Decide(top == setV, "C29.R1", w.FuncName(top)+" call bbolt."+c29Recv(ci)+"."+ci.Method, w.Pos(call.Pos()),
-				"bbolt mutator of package version lies inside SetVersion",
-				"package version changes its bucket outside SetVersion: the stored version can change without the active-swap test")
+			cons := w.FuncName(top) + " call bbolt." + c29Recv(ci) + "." + ci.Method
+			switch c29OnlyCalledFrom(w, top, setV, 0) {
+			case "yes":
+				c.OK("C29.R1", cons, w.Pos(call.Pos()), "bbolt mutator of package version lies inside SetVersion (or a helper only SetVersion calls)")
+			case "no":
+				c.Bad("C29.R1", cons, w.Pos(call.Pos()), "package version changes its bucket outside SetVersion: the stored version can change without the active-swap test")
+			default:
+				c.Unknown("C29.R1", cons, w.Pos(call.Pos()), "cannot establish who calls this function")
+			}
 		}
 	}
 	c.AtLeast("C29.R1", "bbolt mutator calls in package version", nMut, 1)
@@ -99,50 +105,102 @@ func c29R1(c *an.Check, setV, safe *ssa.Function) {
 	// (b) callers of SetVersion
 	sites := findCallSites(w, c29FnSetVersion)
 	c.AtLeast("C29.R1", "production call sites of versionStore.SetVersion", len(sites), 1)
-	for _, site := range sites {
-		fn := site.Parent()
-		cons := w.FuncName(fn) + " call SetVersion"
-		if an.EnclosingTop(fn) != safe || fn != safe {
-			c.Bad("C29.R1", cons, w.Pos(site.Pos()), "versionStore.SetVersion is called outside SafeUpgrade: the version is replaced without consulting HasActiveSwaps")
+	for _, site0 := range sites {
+		cons := w.FuncName(site0.Parent()) + " call SetVersion"
+		// lift the site through helpers that only SafeUpgrade calls
+		lifted := []ssa.CallInstruction{site0}
+		verdict := ""
+		for depth := 0; depth < 3 && verdict == ""; depth++ {
+			var next []ssa.CallInstruction
+			done := true
+			for _, st := range lifted {
+				top := an.EnclosingTop(st.Parent())
+				if st.Parent() == safe {
+					next = append(next, st)
+					continue
+				}
+				done = false
+				var callers []ssa.CallInstruction
+				for _, g := range prodFuncs(w) {
+					for _, call := range an.Calls(g) {
+						if call.Common().StaticCallee() == top {
+							callers = append(callers, call)
+						}
+					}
+				}
+				switch {
+				case st.Parent() != top:
+					verdict = "unknown" // inside a closure
+				case len(callers) == 0 && top.Object() != nil && top.Object().Exported():
+					verdict = "bad"
+				case len(callers) == 0:
+					verdict = "unknown"
+				}
+				for _, k := range callers {
+					if an.EnclosingTop(k.Parent()) != safe && c29OnlyCalledFrom(w, an.EnclosingTop(k.Parent()), safe, 0) == "no" {
+						verdict = "bad"
+					}
+				}
+				next = append(next, callers...)
+			}
+			lifted = next
+			if done {
+				break
+			}
+		}
+		for _, st := range lifted {
+			if verdict == "" && st.Parent() != safe {
+				verdict = "unknown"
+			}
+		}
+		switch verdict {
+		case "bad":
+			c.Bad("C29.R1", cons, w.Pos(site0.Pos()), "versionStore.SetVersion is called outside SafeUpgrade: the version is replaced without consulting HasActiveSwaps")
+			continue
+		case "unknown":
+			c.Unknown("C29.R1", cons, w.Pos(site0.Pos()), "SetVersion is called from a helper whose callers this rule cannot enumerate")
 			continue
 		}
-		// (c) dominated by err==nil and result==false of one HasActiveSwaps call
-		hs := callsNamed(w, fn, c29IfHasActive)
-		guarded := false
+		// (c) every (lifted) site is dominated by err==nil and result==false of one HasActiveSwaps call
+		hs := c29ActiveCalls(w, safe)
+		allGuarded := len(lifted) > 0
 		var why []string
-		for _, h := range hs {
-			hc, ok := h.(*ssa.Call)
-			if !ok {
-				continue
+		for _, site := range lifted {
+			guarded := false
+			for _, hc := range hs {
+				okE, _ := an.OkEdges(hc)
+				var fE []an.Edge
+				for _, rv := range an.ResultValues(hc, 0) {
+					_, f := an.BoolEdges(rv)
+					fE = append(fE, f...)
+				}
+				e1 := len(okE) > 0 && an.EdgesDominate(okE, site.Block())
+				e2 := len(fE) > 0 && an.EdgesDominate(fE, site.Block())
+				if e1 && e2 {
+					guarded = true
+				} else {
+					why = append(why, fmt.Sprintf("HasActiveSwaps at %s: dominated by err==nil edge: %v, by result==false edge: %v", w.Pos(hc.Pos()), e1, e2))
+				}
 			}
-			okE, _ := an.OkEdges(hc)
-			var fE []an.Edge
-			for _, rv := range an.ResultValues(hc, 0) {
-				_, f := an.BoolEdges(rv)
-				fE = append(fE, f...)
-			}
-			e1 := len(okE) > 0 && an.EdgesDominate(okE, site.Block())
-			e2 := len(fE) > 0 && an.EdgesDominate(fE, site.Block())
-			if e1 && e2 {
-				guarded = true
-			} else {
-				why = append(why, fmt.Sprintf("HasActiveSwaps at %s: dominated by err==nil edge: %v, by result==false edge: %v", w.Pos(h.Pos()), e1, e2))
+			if !guarded {
+				allGuarded = false
 			}
 		}
-		c.Decide(guarded, "C29.R1", cons, w.Pos(site.Pos()),
-			"SetVersion is reached only through the err==nil and hasActive==false edges of HasActiveSwaps",
-			"SetVersion can be reached without `HasActiveSwaps() == (false, nil)`: the version is upgraded while a swap may be active. "+strings.Join(why, "; ")+". Facts that do hold: "+an.DescribeFacts(w.FactsDominating(site)))
+		switch {
+		case allGuarded:
+			c.OK("C29.R1", cons, w.Pos(site0.Pos()), "SetVersion is reached only through the err==nil and hasActive==false edges of HasActiveSwaps")
+		case len(hs) == 0 && w.Summary(safe).HasEffect(c29IfHasActive):
+			c.Unknown("C29.R1", cons, w.Pos(site0.Pos()), "HasActiveSwaps is consulted in a helper of SafeUpgrade that does not hand its two results back unchanged; the guard is not followed")
+		default:
+			c.Bad("C29.R1", cons, w.Pos(site0.Pos()), "SetVersion can be reached without `HasActiveSwaps() == (false, nil)`: the version is upgraded while a swap may be active. "+strings.Join(why, "; ")+". Facts that do hold: "+an.DescribeFacts(w.FactsDominating(site0)))
+		}
 	}
 
 	// (d) the refusing edges return an error
-	hs := callsNamed(w, safe, c29IfHasActive)
-	c.AtLeast("C29.R1", "HasActiveSwaps calls in SafeUpgrade", len(hs), 1)
-	for _, h := range hs {
-		hc, ok := h.(*ssa.Call)
-		if !ok {
-			c.Unknown("C29.R1", "SafeUpgrade HasActiveSwaps refusal", w.Pos(h.Pos()), "HasActiveSwaps is called with go/defer")
-			continue
-		}
+	hs := c29ActiveCalls(w, safe)
+	c.AtLeast("C29.R1", "HasActiveSwaps calls in SafeUpgrade (direct or through a helper handing the results back)", len(hs), 1)
+	for _, hc := range hs {
+		h := ssa.CallInstruction(hc)
 		_, failE := an.OkEdges(hc)
 		var errV ssa.Value
 		if vs := an.ResultValues(hc, 1); len(vs) > 0 {
@@ -162,6 +220,87 @@ func c29R1(c *an.Check, setV, safe *ssa.Function) {
 	}
 }
 
+// c29ActiveCalls: the HasActiveSwaps calls of fn: direct interface calls, and
+// calls of in-module helpers that hand the two results of one HasActiveSwaps
+// call back unchanged.
+func c29ActiveCalls(w *an.World, fn *ssa.Function) []*ssa.Call {
+	var out []*ssa.Call
+	for _, call := range an.Calls(fn) {
+		cc, ok := call.(*ssa.Call)
+		if !ok {
+			continue
+		}
+		ci := w.Info(call)
+		if ci.Name == c29IfHasActive {
+			out = append(out, cc)
+			continue
+		}
+		f := ci.Static
+		if f == nil || !w.InModule(f) || f.Blocks == nil {
+			continue
+		}
+		inner := callsNamed(w, f, c29IfHasActive)
+		if len(inner) != 1 {
+			continue
+		}
+		pass := true
+		for _, r := range an.Returns(f) {
+			if len(r.Results) != 2 {
+				pass = false
+				continue
+			}
+			for i, res := range r.Results {
+				ex, isEx := res.(*ssa.Extract)
+				if !isEx || ex.Index != i || ex.Tuple != inner[0].Value() {
+					pass = false
+				}
+			}
+		}
+		if pass {
+			out = append(out, cc)
+		}
+	}
+	return out
+}
+
+// c29OnlyCalledFrom: every production chain of static calls into fn starts in
+// root ("yes"), some caller is another function ("no"), or it cannot be told.
+func c29OnlyCalledFrom(w *an.World, fn, root *ssa.Function, depth int) string {
+	if fn == root {
+		return "yes"
+	}
+	if c29IsAPI(fn) {
+		return "no" // another entry point of the package
+	}
+	if depth > 3 {
+		return "unknown"
+	}
+	n := 0
+	res := "yes"
+	for _, g := range prodFuncs(w) {
+		for _, call := range an.Calls(g) {
+			if call.Common().StaticCallee() != fn {
+				continue
+			}
+			n++
+			switch c29OnlyCalledFrom(w, an.EnclosingTop(g), root, depth+1) {
+			case "no":
+				return "no"
+			case "unknown":
+				res = "unknown"
+			}
+		}
+	}
+	if n == 0 {
+		if fn.Object() != nil && fn.Object().Exported() {
+			return "no"
+		}
+		// an unexported function nobody calls statically (method value, interface): another entry point
+		return "no"
+	}
+	return res
+}
+
 func c29Recv(ci an.CallInfo) string {
 	if ci.Recv != nil {
 		return ci.Recv.Obj().Name()
@@ -174,7 +313,20 @@ func c29Recv(ci an.CallInfo) string {
 func c29EdgeReturnsErr(c *an.Check, rule, cons string, fn *ssa.Function, edges []an.Edge, nonNil ssa.Value, at ssa.Instruction, okText, badText string) {
 	w := c.W
 	if len(edges) == 0 {
-		c.Bad(rule, cons, w.Pos(at.Pos()), "the result is never tested: "+badText)
+		// discarded (no use at all) is a verdict; handed on to something else is not
+		used := false
+		if cv, ok := at.(ssa.Value); ok && cv.Referrers() != nil {
+			for _, r := range *cv.Referrers() {
+				if ex, isEx := r.(*ssa.Extract); isEx && ex.Referrers() != nil && len(*ex.Referrers()) > 0 {
+					used = true
+				}
+			}
+		}
+		if used {
+			c.Unknown(rule, cons, w.Pos(at.Pos()), "the result is not branched on in this function but handed on; the rule does not follow it")
+		} else {
+			c.Bad(rule, cons, w.Pos(at.Pos()), "the result is never tested: "+badText)
+		}
 		return
 	}
 	var start []*ssa.BasicBlock
@@ -510,9 +662,16 @@ func c29R3R4(c *an.Check, svc *types.Named) {
 				good = true
 			}
 		}
-		c.Decide(good, "C29.R3", cons, w.Pos(r.Pos()),
-			"swaps are recovered only after SafeUpgrade(<this swap service>) succeeded",
-			"RecoverSwaps can run although SafeUpgrade did not succeed before it: swaps written by another version are resumed. "+strings.Join(why, "; "))
+		switch {
+		case good:
+			c.OK("C29.R3", cons, w.Pos(r.Pos()), "swaps are recovered only after SafeUpgrade(<this swap service>) succeeded")
+		case len(callsNamed(w, fn, c29FnSafe)) == 0 && c29SafeNearby(w, fn):
+			// the upgrade check lives in a helper or in a caller of this function:
+			// the sequence is not followed across functions
+			c.Unknown("C29.R3", cons, w.Pos(r.Pos()), "SafeUpgrade is not called in "+w.FuncName(fn)+" itself but in a helper or caller of it; the order across functions is not followed")
+		default:
+			c.Bad("C29.R3", cons, w.Pos(r.Pos()), "RecoverSwaps can run although SafeUpgrade did not succeed before it: swaps written by another version are resumed. "+strings.Join(why, "; "))
+		}
 	}
 
 	for _, s := range safes {
@@ -528,6 +687,32 @@ func c29R3R4(c *an.Check, svc *types.Named) {
 			fmt.Sprintf("SafeUpgrade is handed a %s: the active-swap test analysed by R2 is not the one that guards the upgrade", arg.Type()))
 		c29Propagate(c, fn, sc, map[*ssa.Function]bool{}, 0, []string{w.FuncName(fn) + " calls SafeUpgrade at " + w.Pos(s.Pos())})
 	}
+}
+
+// c29SafeNearby: SafeUpgrade is reached from fn through in-module static
+// callees, or called in a function that (transitively, two levels) calls fn.
+func c29SafeNearby(w *an.World, fn *ssa.Function) bool {
+	if w.Summary(fn).HasEffect(c29FnSafe) {
+		return true
+	}
+	level := []*ssa.Function{an.EnclosingTop(fn)}
+	for depth := 0; depth < 2; depth++ {
+		var next []*ssa.Function
+		for _, g := range prodFuncs(w) {
+			for _, call := range an.Calls(g) {
+				for _, f := range level {
+					if call.Common().StaticCallee() == f {
+						if w.Summary(g).HasEffect(c29FnSafe) {
+							return true
+						}
+						next = append(next, an.EnclosingTop(g))
+					}
+				}
+			}
+		}
+		level = next
+	}
+	return false
 }
 
 func c29StripIface(v ssa.Value) ssa.Value {
@@ -775,7 +960,7 @@ func c29Exec(w *an.World, fn, isFin *ssa.Function, sc c29Scenario) (outs map[str
 				case *ssa.Call:
 					ci := w.Info(x)
 					switch {
-					case ci.Name == c29IfListAll:
+					case ci.Name == c29IfListAll || (ci.Static != nil && c29ListHelpers[ci.Static]):
 						env[x] = c29Val{kind: "tuple"}
 					case ci.Static != nil && ci.Static == isFin:
 						r := get(x.Call.Args[0])
@@ -925,11 +1110,61 @@ func c29Exec(w *an.World, fn, isFin *ssa.Function, sc c29Scenario) (outs map[str
 	return outs, ""
 }
 
+// c29ListHelpers: in-module functions that return Store.ListAll's results
+// unchanged (set by c29HasActive for c29Exec).
+var c29ListHelpers = map[*ssa.Function]bool{}
+
 func c29HasActive(c *an.Check, has, isFin *ssa.Function) {
 	w := c.W
 	pos := w.Pos(has.Pos())
-	if n := len(callsNamed(w, has, c29IfListAll)); n != 1 {
-		c.Unknown("C29.R2", "HasActiveSwaps", pos, fmt.Sprintf("expected exactly one Store.ListAll call, found %d", n))
+	// the list of stored swaps: Store.ListAll, directly or through a helper that
+	// hands its two results back unchanged
+	c29ListHelpers = map[*ssa.Function]bool{}
+	nList := len(callsNamed(w, has, c29IfListAll))
+	for _, call := range an.Calls(has) {
+		f := call.Common().StaticCallee()
+		if f == nil || !w.InModule(f) || f.Blocks == nil {
+			continue
+		}
+		inner := callsNamed(w, f, c29IfListAll)
+		if len(inner) != 1 {
+			continue
+		}
+		pass := true
+		for _, r := range an.Returns(f) {
+			if len(r.Results) != 2 {
+				pass = false
+				continue
+			}
+			for i, res := range r.Results {
+				ex, isEx := res.(*ssa.Extract)
+				if !isEx || ex.Index != i || ex.Tuple != inner[0].Value() {
+					pass = false
+				}
+			}
+		}
+		if pass {
+			c29ListHelpers[f] = true
+			nList++
+		}
+	}
+	if nList == 0 {
+		// does any read of the swap store reach this function at all?
+		reads := false
+		for _, ef := range w.Summary(has).Effects {
+			if strings.HasPrefix(ef.Name, "iface:swap.Store.") || (ef.Info.Static != nil && ef.Info.PkgPath == c29BoltPath) {
+				reads = true
+			}
+		}
+		if !reads {
+			c.Bad("C29.R2", "HasActiveSwaps", pos, "HasActiveSwaps answers from memory, not from the store: no read of the swap store (Store.ListAll / GetData / bbolt) is reached from it, so its result cannot depend on the persisted swaps — before RecoverSwaps has run nothing is in memory and the answer is `false` although unfinished swaps are stored: the version is replaced while a swap is active")
+			return
+		}
+		c.Unknown("C29.R2", "HasActiveSwaps", pos, "the swap store is read, but not through one Store.ListAll call (or a helper handing its results back) in HasActiveSwaps")
+		return
+	}
+	if nList != 1 {
+		c.Unknown("C29.R2", "HasActiveSwaps", pos, fmt.Sprintf("expected exactly one Store.ListAll call, found %d", nList))
 		return
 	}
 	if has.Signature.Results().Len() != 2 {
@@ -1017,4 +1252,16 @@ func c29HasActive(c *an.Check, has, isFin *ssa.Function) {
 	default:
 		c.OK("C29.R2", "HasActiveSwaps store error", pos, "a failing Store.ListAll is reported as an error")
 	}
+}
+
+// c29IsAPI: an exported function, or an exported method of an exported type.
+func c29IsAPI(fn *ssa.Function) bool {
+	if fn == nil || fn.Object() == nil || !fn.Object().Exported() || fn.Parent() != nil {
+		return false
+	}
+	if recv := fn.Signature.Recv(); recv != nil {
+		n := an.NamedOf(recv.Type())
+		return n != nil && n.Obj().Exported()
+	}
+	return true
 }
